@@ -433,6 +433,8 @@ func (x *verifC07swRun) judgeImage(cp *verifC07swCapture, im *verifC07swImage,
 				if x.outs[c.ch].status == 2 && (cp.pre[i].stored || cp.post[i].stored || newAck) {
 					key = "circuit-awaiting-resolution-purged"
 				}
+			case got != nil && !got.HasKeystone() && (comm(p) || comm(q)):
+				key = "committed-circuit-not-open"
 			case got != nil && !w.e && !cp.pre[i].exists && !cp.post[i].exists:
 				key = "unknown-circuit-present"
 			case got != nil && !w.e:
@@ -442,8 +444,6 @@ func (x *verifC07swRun) judgeImage(cp *verifC07swCapture, im *verifC07swImage,
 				} else if x.outs[c.ch].status == 2 {
 					key = "closed-channel-circuit-not-purged"
 				}
-			case got != nil && !got.HasKeystone() && (comm(p) || comm(q)):
-				key = "committed-circuit-not-open"
 			case got != nil && got.HasKeystone() && !p.ho && !q.ho:
 				key = "uncommitted-circuit-open"
 			case got != nil:
@@ -675,10 +675,12 @@ func (x *verifC07swRun) judgeImage(cp *verifC07swCapture, im *verifC07swImage,
 			if gotResp[i] == 0 {
 				bad("awaiting_resolution", "resolution-not-redelivered-after-restart",
 					fmt.Sprintf("HTLC %s: the on-chain resolution (%s) of outgoing HTLC "+
-						"%s was durably handed to the switch and is not locked in on the "+
-						"incoming channel, but it did not reach the incoming link of the "+
-						"booted switch", verifC07KeyStr(c.in), c.res,
-						verifC07KeyStr(c.resKey)))
+						"%s was durably handed to the switch before the operation (or "+
+						"acknowledged to the contract court before the crash instant: "+
+						"%v) and is not locked in on the incoming channel, but it did not "+
+						"reach the incoming link of the booted switch",
+						verifC07KeyStr(c.in), c.res, verifC07KeyStr(c.resKey),
+						im.acked[i] && !cp.acked0[i]))
 				return
 			}
 			vc.Count("swc_resolution_redelivered_after_crash", 1)
